@@ -87,6 +87,11 @@ def sweeps(tier):
             ops = [['req', 1 + i % 247, 1 + i % 6] for i in range(nreq)]
             ops += [['reply', (nreq - 1 - i) if variant != 'rtu' else 0] for i in range(nreq)] if nreq <= 300 else [['reply', (i * 7919) % 9973] for i in range(nreq)]
             many.append({'variant': variant, 'tid_start': 65000, 'ops': ops, 'ctor': 'base', 'framer_as_class': False})
+    for nreq in (36, 37, 60, 150):
+        many.append({'variant': 'rtu', 'tid_start': 0, 'ctor': 'base', 'framer_as_class': False,
+                     'ops': [['req', 1 + i % 247, 1 + i % 3] for i in range(nreq)] + [['coalesce', [0] * nreq]]})
+        many.append({'variant': 'tcp', 'tid_start': 0, 'ctor': 'base', 'framer_as_class': False,
+                     'ops': [['req', 1 + i % 247, 1 + i % 3] for i in range(nreq)] + [['coalesce', list(range(nreq - 1, -1, -1))]]})
     out.append(('many-outstanding-requests', many, False))
     return out
 
